@@ -144,7 +144,8 @@ const OUT_NAMES: [&str; 16] = [
     // plain outputs whose names look like the `_out` column of a (prefix of a) bidirectional signal
     "DRDY_out", "Mx_out", "IO2", "BUSY_out",
 ];
-const BIDIR_NAMES: [&str; 7] = ["D", "IO", "BUS", "DQ", "M", "DQS", "IO2x"];
+// (a bidirectional signal may itself be called `<x>_out`: its expected column is `<x>_out_out`)
+const BIDIR_NAMES: [&str; 9] = ["D", "IO", "BUS", "DQ", "M", "DQS", "IO2x", "P_out", "W_out_out"];
 const ODD_NAMES: [&str; 11] = [
     "ALU-~RESET",
     "Q[0]",
@@ -318,6 +319,16 @@ impl<'a> Gen<'a> {
             if let Some(b) = sigs.iter().find(|s| matches!(s.kind, SigKind::Bidir(_))).map(|s| s.name.clone()) {
                 let name = format!("{b}_out");
                 if !sigs.iter().any(|s| s.name == name) {
+                    let bits = self.width(true);
+                    sigs.push(Sig { name, bits, kind: SigKind::Out });
+                }
+            }
+        }
+        // ... or like that column's name with one more `_out` (which means nothing special)
+        if self.r.chance(40, 1000) {
+            if let Some(b) = sigs.iter().find(|s| matches!(s.kind, SigKind::Bidir(_))).map(|s| s.name.clone()) {
+                let name = format!("{b}_out_out");
+                if !sigs.iter().any(|s| s.name == name || format!("{}_out", s.name) == name) {
                     let bits = self.width(true);
                     sigs.push(Sig { name, bits, kind: SigKind::Out });
                 }
@@ -1062,6 +1073,10 @@ impl<'a> Gen<'a> {
 
     fn declare_expr(&mut self, depth: usize) -> Expr {
         if depth == 0 {
+            if self.cfg.allow_random > 0 && self.r.chance(self.cfg.allow_random / 2, 1000) {
+                // a virtual signal may draw too (one draw per checked row that evaluates it)
+                return Expr::Random(Box::new(Expr::Num(self.r.range(2, 60), Radix::Dec)));
+            }
             return if self.r.chance(800, 1000) {
                 Expr::Ident(self.r.pick(&self.readable).clone())
             } else {
